@@ -2,6 +2,7 @@ import Qentem.Model.Value
 import Qentem.Model.ValueOps
 import Qentem.Proofs.ValueSlots
 import Qentem.Proofs.ValueDoc
+import Qentem.Model.Group
 /-!
 The invariant of every document the operations can build: in every object, at every depth, the live
 keys are pairwise distinct.  `WF` is preserved by every per-value operation and by `step`.
@@ -387,5 +388,380 @@ theorem WF_removeIdx (i : Nat) (d : Doc) (h : WF d) : WF (removeIdx i d) := by
 
 theorem WF_resetPayload (d : Doc) : WF (resetPayload d) := by
   cases d <;> simp [resetPayload, WF, WFItems, WFSlots, keysNodup, keysOf, liveEntries]
+
+
+theorem WF_assignType (k : Nat) (d d' : Doc) (h : assignType k d = some d') : WF d' := by
+  unfold assignType at h
+  split at h <;> simp at h <;> subst h <;> simp [WF, WFItems, WFSlots, keysNodup, keysOf, liveEntries]
+
+/-! ### navigation without vivification -/
+
+theorem WF_nonUndef (v x : Doc) (h : WF v) (hx : nonUndef v = some x) : WF x := by
+  unfold nonUndef at hx
+  split at hx
+  · cases hx
+  · cases hx; exact h
+
+theorem WF_childAt (d : Doc) (sel : Sel) (c : Doc) (h : WF d) (hc : childAt d sel = some c) : WF c := by
+  cases sel with
+  | key k =>
+    simp only [childAt, childKey] at hc
+    cases d with
+    | obj cap s =>
+      simp only at hc
+      cases hf : slotFind k s with
+      | none => simp [hf] at hc
+      | some v =>
+        simp only [hf] at hc
+        exact WF_nonUndef v c (WF_slotFind k s v ((WF_obj _ _).1 h).2 hf) hc
+    | arr items =>
+      simp only at hc
+      cases hg : items[fastStrToNum k]? with
+      | none => simp [hg] at hc
+      | some v =>
+        simp only [hg] at hc
+        exact WF_nonUndef v c ((WF_arr _).1 h v (List.mem_of_getElem? hg)) hc
+    | _ => simp at hc
+  | idx i =>
+    simp only [childAt, childIdx] at hc
+    cases d with
+    | obj cap s =>
+      simp only at hc
+      split at hc
+      · rename_i k v hs
+        exact WF_nonUndef v c ((WFSlots_iff s).1 ((WF_obj _ _).1 h).2 (k, v) (mem_liveEntries_of_get s i (k, v) hs)) hc
+      · cases hc
+    | arr items =>
+      simp only at hc
+      cases hg : items[i]? with
+      | none => simp [hg] at hc
+      | some v =>
+        simp only [hg] at hc
+        exact WF_nonUndef v c ((WF_arr _).1 h v (List.mem_of_getElem? hg)) hc
+    | _ => simp at hc
+
+theorem WF_getAt : ∀ (p : List Sel) (d x : Doc), WF d → getAt d p = some x → WF x := by
+  intro p
+  induction p with
+  | nil => intro d x h hx; simp [getAt] at hx; subst hx; exact h
+  | cons sel rest ih =>
+    intro d x h hx
+    simp only [getAt] at hx
+    cases hc : childAt d sel with
+    | none => simp [hc] at hx
+    | some c =>
+      simp only [hc] at hx
+      exact ih c x (WF_childAt d sel c h hc) hx
+
+theorem slotSetVal_WF (k : Key) (x : Doc) (hx : WF x) (s : List Slot) :
+    keysOf (slotSetVal k x s) = keysOf s ∧ (WFSlots s → WFSlots (slotSetVal k x s)) := by
+  induction s with
+  | nil => simp [slotSetVal]
+  | cons a t ih =>
+    cases a with
+    | none => simpa [slotSetVal, keysOf, liveEntries, WFSlots] using ih
+    | some e =>
+      obtain ⟨k2, v⟩ := e
+      by_cases h1 : k2 = k
+      · simp [slotSetVal, h1, keysOf, liveEntries, WFSlots, hx]
+      · simp only [keysOf] at ih
+        simp only [slotSetVal, h1, if_false, keysOf, liveEntries, List.map_cons, ih.1, WFSlots, true_and]
+        intro hw; exact ⟨hw.1, ih.2 hw.2⟩
+
+theorem WF_setChild (d : Doc) (sel : Sel) (x : Doc) (h : WF d) (hx : WF x) : WF (setChild d sel x) := by
+  cases d with
+  | obj c sl =>
+    cases sel with
+    | key k =>
+      have hk := slotSetVal_WF k x hx sl
+      have hw := (WF_obj c sl).1 h
+      simp only [setChild, WF_obj]
+      exact ⟨by simpa [keysNodup, hk.1] using hw.1, hk.2 hw.2⟩
+    | idx i =>
+      simp only [setChild]
+      split
+      · rename_i k v hs
+        rw [WF_obj]; exact slots_set_same_key sl i k v x hs ((WF_obj c sl).1 h) hx
+      · exact h
+  | arr items =>
+    cases sel with
+    | key k => simp only [setChild, WF_arr]; exact setAtIdx_mem _ _ items WF ((WF_arr _).1 h) (fun _ _ => hx)
+    | idx i => simp only [setChild, WF_arr]; exact setAtIdx_mem _ _ items WF ((WF_arr _).1 h) (fun _ _ => hx)
+  | _ => cases sel <;> simpa [setChild] using h
+
+theorem WF_modAt (f : Doc → Doc) (hf : ∀ v, WF v → WF (f v)) : ∀ (p : List Sel) (d : Doc), WF d → WF (modAt d p f) := by
+  intro p
+  induction p with
+  | nil => intro d h; exact hf d h
+  | cons sel rest ih =>
+    intro d h
+    simp only [modAt]
+    cases hc : childAt d sel with
+    | none => exact h
+    | some c => exact WF_setChild d sel _ h (ih c (WF_childAt d sel c h hc))
+
+/-! ### GroupBy -/
+
+theorem subObjSet_WF (k : Key) (v : Doc) (o : Nat × List Slot) (ho : keysNodup o.2 ∧ WFSlots o.2) (hv : WF v) :
+    keysNodup (subObjSet k v o).2 ∧ WFSlots (subObjSet k v o).2 := by
+  have h1 := objExpand_WF o.1 o.2 ho
+  simp only [subObjSet]
+  exact ⟨keysNodup_slotUpd _ _ _ h1.1, WFSlots_slotUpd _ _ _ h1.2 (fun _ _ => WF_copyDoc v hv)⟩
+
+theorem groupScan_WF (fmtReal : Nat → List Nat) (env : Env) (key : Key) (slots : List Slot) :
+    ∀ (cur : Key) (sub : Nat × List Slot) (cur' : Key) (sub' : Nat × List Slot),
+    WFSlots slots → keysNodup sub.2 ∧ WFSlots sub.2 →
+    groupScan fmtReal env key slots cur sub = some (cur', sub') → keysNodup sub'.2 ∧ WFSlots sub'.2 := by
+  induction slots with
+  | nil => intro cur sub cur' sub' _ hs h; simp [groupScan] at h; rw [← h.2]; exact hs
+  | cons a t ih =>
+    intro cur sub cur' sub' hw hs h
+    cases a with
+    | none => exact ih cur sub cur' sub' (by simpa [WFSlots] using hw) hs (by simpa [groupScan] using h)
+    | some e =>
+      obtain ⟨k, v⟩ := e
+      have hw' : WF v ∧ WFSlots t := by simpa [WFSlots] using hw
+      simp only [groupScan] at h
+      split at h
+      · cases h
+      · split at h
+        · exact ih cur _ cur' sub' hw'.2 (subObjSet_WF k v sub hs hw'.1) h
+        · split at h
+          · exact ih _ sub cur' sub' hw'.2 hs h
+          · cases h
+
+theorem groupAdd_WF (cur : Key) (sub res : Nat × List Slot) (hs : keysNodup sub.2 ∧ WFSlots sub.2)
+    (hr : keysNodup res.2 ∧ WFSlots res.2) : keysNodup (groupAdd cur sub res).2 ∧ WFSlots (groupAdd cur sub res).2 := by
+  have h1 := objExpand_WF res.1 res.2 hr
+  simp only [groupAdd]
+  exact ⟨keysNodup_slotUpd _ _ _ h1.1,
+    WFSlots_slotUpd _ _ _ h1.2 (fun v hv => WF_addObj sub.1 sub.2 v ((WF_obj _ _).2 hs) hv)⟩
+
+theorem groupLoop_WF (fmtReal : Nat → List Nat) (env : Env) (key : Key) (items : List Doc) :
+    ∀ (cur : Key) (res : Nat × List Slot), (∀ it ∈ items, WF it) → keysNodup res.2 ∧ WFSlots res.2 →
+    keysNodup (groupLoop fmtReal env key items cur res).2.2 ∧ WFSlots (groupLoop fmtReal env key items cur res).2.2 := by
+  induction items with
+  | nil => intro cur res _ hr; simpa [groupLoop] using hr
+  | cons it rest ih =>
+    intro cur res hi hr
+    cases it with
+    | obj c slots =>
+      simp only [groupLoop]
+      cases hsc : groupScan fmtReal env key slots cur (0, []) with
+      | none => simpa using hr
+      | some p =>
+        obtain ⟨cur', sub⟩ := p
+        have hsub := groupScan_WF fmtReal env key slots cur (0, []) cur' sub
+          ((WF_obj _ _).1 (hi _ List.mem_cons_self)).2 (by simp [keysNodup, keysOf, liveEntries, WFSlots]) hsc
+        exact ih cur' _ (fun x hx => hi x (List.mem_cons_of_mem _ hx)) (groupAdd_WF cur' sub res hsub hr)
+    | _ => simpa [groupLoop] using hr
+
+/-- every root of the forest is well formed. -/
+def EnvWF (env : Env) : Prop := ∀ r, WF (envGet env r)
+
+theorem WF_derefF (env : Env) (h : EnvWF env) : ∀ (f : Nat) (d : Doc), WF d → WF (derefF env f d) := by
+  intro f
+  induction f with
+  | zero => intro d hd; simpa [derefF] using hd
+  | succ f ih =>
+    intro d hd
+    cases d with
+    | ptr r => simp only [derefF]; exact ih _ (h r)
+    | _ => simpa [derefF] using hd
+
+theorem WF_groupByA (fmtReal : Nat → List Nat) (env : Env) (henv : EnvWF env) (src : Doc) (key : Key) (dest : Doc)
+    (hs : WF src) (hd : WF dest) : WF (groupByA fmtReal env src key dest).2 := by
+  have hdr : WF (deref env src) := WF_derefF env henv _ src hs
+  have hempty : WF (obj 0 []) := by simp [WF, WFSlots, keysNodup, keysOf, liveEntries]
+  unfold groupByA
+  split
+  · rename_i items hitems
+    rw [hitems] at hdr
+    split
+    · split
+      · simp only [WF_obj]
+        exact groupLoop_WF fmtReal env key _ [] (0, []) ((WF_arr _).1 hdr)
+          (by simp [keysNodup, keysOf, liveEntries, WFSlots])
+      · exact hempty
+    · exact hempty
+  · exact hd
+
+/-! ### the forest -/
+
+theorem EnvWF_envSet (env : Env) (r : Nat) (d : Doc) (h : EnvWF env) (hd : WF d) : EnvWF (envSet env r d) := by
+  intro q
+  have hq := h q
+  simp only [envGet, envSet, List.getElem?_set] at *
+  by_cases hrq : r = q
+  · subst hrq
+    by_cases hl : r < env.length <;> simp [hl, hd, WF_undef]
+  · simpa [hrq] using hq
+
+theorem EnvWF_onTarget (env : Env) (t : Loc) (f : Doc → Doc) (h : EnvWF env) (hf : ∀ v, WF v → WF (f v)) :
+    EnvWF (onTarget env t f) :=
+  EnvWF_envSet _ _ _ h (WF_updPath t.path f hf _ (h t.root))
+
+theorem EnvWF_clearSource (env : Env) (s : Loc) (h : EnvWF env) : EnvWF (clearSource env s) :=
+  EnvWF_envSet _ _ _ h (WF_modAt _ (fun _ _ => WF_undef) s.path _ (h s.root))
+
+theorem WF_source (env : Env) (t s : Loc) (x : Doc) (h : EnvWF env) (hx : source env t s = some x) : WF x := by
+  unfold source at hx
+  split at hx
+  · cases hx
+  · exact WF_getAt s.path _ x (h s.root) hx
+
+theorem WF_ptr (r : Nat) : WF (ptr r) := by simp [WF]
+
+theorem WF_copyItems_mem (items : List Doc) (h : ∀ x ∈ items, WF x) : ∀ x ∈ copyItems items, WF x := by
+  rw [copyItems_eq_map]
+  intro x hx
+  obtain ⟨y, hy, rfl⟩ := List.mem_map.1 hx
+  exact WF_copyDoc y (h y hy)
+
+/-- the documents an operation carries as immediate operands (scalars and strings in every overload). -/
+def Op.payloadWF : Op → Prop
+  | .assign _ x | .append _ x | .insert _ _ x => WF x
+  | _ => True
+
+/-- **every reachable forest state is well formed**: one operation keeps the invariant … -/
+theorem step_WF (fmtReal : Nat → List Nat) (op : Op) (env : Env) (h : EnvWF env) (hp : op.payloadWF) :
+    EnvWF (step fmtReal op env).1 := by
+  cases op with
+  | assign t x => exact EnvWF_onTarget _ _ _ h (fun _ _ => hp)
+  | touch t => exact EnvWF_onTarget _ _ _ h (fun _ hv => hv)
+  | setType t k =>
+    refine EnvWF_onTarget _ _ _ h (fun v hv => ?_)
+    cases ha : assignType k v with
+    | none => simpa [ha] using hv
+    | some d' => simpa [ha] using WF_assignType k v d' ha
+  | copy t s =>
+    simp only [step]
+    cases hs : source env t s with
+    | none => exact h
+    | some x => exact EnvWF_onTarget _ _ _ h (fun _ _ => WF_copyDoc x (WF_source env t s x h hs))
+  | move t s =>
+    simp only [step]
+    cases hs : source env t s with
+    | none => exact h
+    | some x => exact EnvWF_onTarget _ _ _ (EnvWF_clearSource _ _ h) (fun _ _ => WF_source env t s x h hs)
+  | assignObj t s =>
+    simp only [step]
+    cases hs : source env t s with
+    | none => exact h
+    | some x =>
+      have hx := WF_source env t s x h hs
+      cases x with
+      | obj c sl => exact EnvWF_onTarget _ _ _ h (fun _ _ => WF_copyDoc _ hx)
+      | _ => exact h
+  | assignArr t s =>
+    simp only [step]
+    cases hs : source env t s with
+    | none => exact h
+    | some x =>
+      have hx := WF_source env t s x h hs
+      cases x with
+      | arr items => exact EnvWF_onTarget _ _ _ h (fun _ _ => WF_copyDoc _ hx)
+      | _ => exact h
+  | setPtr t r =>
+    cases r with
+    | some r => exact EnvWF_onTarget _ _ _ h (fun _ _ => WF_ptr r)
+    | none =>
+      refine EnvWF_onTarget _ _ _ h (fun v _ => ?_)
+      cases v <;> first | exact WF_resetPayload _ | exact WF_ptr _
+  | append t x => exact EnvWF_onTarget _ _ _ h (fun v hv => WF_pushDoc x v hp hv)
+  | appendMove t s =>
+    simp only [step]
+    cases hs : source env t s with
+    | none => exact h
+    | some x =>
+      exact EnvWF_onTarget _ _ _ (EnvWF_clearSource _ _ h)
+        (fun v hv => WF_addValue id (fun _ hw => hw) x v (WF_source env t s x h hs) hv)
+  | appendCopy t s =>
+    simp only [step]
+    cases hs : source env t s with
+    | none => exact h
+    | some x =>
+      exact EnvWF_onTarget _ _ _ h (fun v hv => WF_addValue copyDoc WF_copyDoc x v (WF_source env t s x h hs) hv)
+  | appendObj t s =>
+    simp only [step]
+    cases hs : source env t s with
+    | none => exact h
+    | some x =>
+      have hx := WF_source env t s x h hs
+      cases x with
+      | obj c sl =>
+        refine EnvWF_onTarget _ _ _ h (fun v hv => ?_)
+        have hc := WF_copyDoc _ hx
+        simp only [copyDoc] at hc ⊢
+        exact WF_addObj _ _ v hc hv
+      | _ => exact h
+  | appendArr t s =>
+    simp only [step]
+    cases hs : source env t s with
+    | none => exact h
+    | some x =>
+      have hx := WF_source env t s x h hs
+      cases x with
+      | arr items =>
+        exact EnvWF_onTarget _ _ _ h (fun v hv => WF_addArr _ v (WF_copyItems_mem items ((WF_arr _).1 hx)) hv)
+      | _ => exact h
+  | addPtr t r =>
+    cases r with
+    | some r => exact EnvWF_onTarget _ _ _ h (fun v hv => WF_pushDoc _ v (WF_ptr r) hv)
+    | none => exact EnvWF_onTarget _ _ _ h (fun v hv => WF_pushDoc _ v WF_undef hv)
+  | insert t k x => exact EnvWF_onTarget _ _ _ h (fun v hv => WF_updKey k _ v hv (fun _ _ => hp))
+  | insertMove t k s =>
+    simp only [step]
+    cases hs : source env t s with
+    | none => exact h
+    | some x =>
+      exact EnvWF_onTarget _ _ _ (EnvWF_clearSource _ _ h)
+        (fun v hv => WF_updKey k _ v hv (fun _ _ => WF_source env t s x h hs))
+  | mergeMove t s =>
+    simp only [step]
+    cases hs : source env t s with
+    | none => exact h
+    | some x =>
+      exact EnvWF_onTarget _ _ _ (EnvWF_clearSource _ _ h)
+        (fun v hv => WF_mergeInto id (fun _ hw => hw) x v (WF_source env t s x h hs) hv)
+  | mergeCopy t s =>
+    simp only [step]
+    cases hs : source env t s with
+    | none => exact h
+    | some x =>
+      exact EnvWF_onTarget _ _ _ h (fun v hv => WF_mergeInto copyDoc WF_copyDoc x v (WF_source env t s x h hs) hv)
+  | remove t k => exact EnvWF_onTarget _ _ _ h (fun v hv => WF_removeKey k v hv)
+  | removeIdx t i => exact EnvWF_onTarget _ _ _ h (fun v hv => WF_removeIdx i v hv)
+  | reset t => exact EnvWF_onTarget _ _ _ h (fun _ _ => WF_undef)
+  | compress t => exact EnvWF_onTarget _ _ _ h (fun v hv => WF_compress v hv)
+  | groupBy dest s k =>
+    simp only [step]
+    split
+    · exact h
+    · cases hg : getAt (envGet env s.root) s.path with
+      | none => exact h
+      | some x =>
+        exact EnvWF_envSet _ _ _ h
+          (WF_groupByA fmtReal env h x k _ (WF_getAt s.path _ x (h s.root) hg) (h dest))
+
+/-- … hence every state an operation sequence reaches from a well-formed forest (in particular from
+the forest of undefined roots) is well formed. -/
+theorem run_WF (fmtReal : Nat → List Nat) (ops : List Op) (env : Env) (h : EnvWF env)
+    (hp : ∀ op ∈ ops, op.payloadWF) : EnvWF (runFinal fmtReal ops env) := by
+  induction ops generalizing env with
+  | nil => exact h
+  | cons op rest ih =>
+    simp only [runFinal]
+    exact ih _ (step_WF fmtReal op env h (hp op List.mem_cons_self)) (fun o ho => hp o (List.mem_cons_of_mem _ ho))
+
+theorem EnvWF_replicate_undef (n : Nat) : EnvWF (List.replicate n undef) := by
+  intro r
+  simp only [envGet]
+  cases hg : (List.replicate n undef)[r]? with
+  | none => exact WF_undef
+  | some d =>
+    have := List.mem_of_getElem? hg
+    simp at this
+    rw [this.2]; exact WF_undef
 
 end Qentem.Value
